@@ -307,16 +307,21 @@ type refFamily struct{ name, pat string }
 func refFamilies() []refFamily {
 	v6full := refGroups(8)
 	v6comp := refCompressed(7, "")
-	v6emb := "(" + refGroups(6) + ":" + refIPv4 + "|" + refCompressed(5, refIPv4) + ")"
+	// the two IPv4-embedded forms are families of their own, so that each gets its own witnesses
+	// (a scrubber that handles only the compressed form still "matches something" in the other)
+	v6embFull := refGroups(6) + ":" + refIPv4
+	v6embComp := refCompressed(5, refIPv4)
 	return []refFamily{
 		{"ipv4", refIPv4},
 		{"ipv4-port", refIPv4 + ":" + refPort},
 		{"ipv6-full", v6full},
 		{"ipv6-compressed", v6comp},
-		{"ipv6-ipv4-embedded", v6emb},
+		{"ipv6-ipv4-embedded", v6embComp},
+		{"ipv6-ipv4-embedded-uncompressed", v6embFull},
 		{"ipv6-full-bracketed", `\[` + v6full + `\]`},
 		{"ipv6-compressed-bracketed", `\[` + v6comp + `\]`},
-		{"ipv6-ipv4-embedded-bracketed", `\[` + v6emb + `\]`},
+		{"ipv6-ipv4-embedded-bracketed", `\[` + v6embComp + `\]`},
+		{"ipv6-ipv4-embedded-uncompressed-bracketed", `\[` + v6embFull + `\]`},
 		{"ipv6-full-bracketed-port", `\[` + v6full + `\]:` + refPort},
 		{"ipv6-compressed-bracketed-port", `\[` + v6comp + `\]:` + refPort},
 	}
